@@ -318,6 +318,29 @@ theorem ims_date_304 (file : Bytes) (sched : List Nat) (isHead : Bool) (rh : Opt
     staticFile file sched isHead rh (parseDate f) mtime maxread = .notModified := by
   rw [hp]; exact ims_304 file sched isHead rh t mtime maxread h
 
+/-- the same at the full resolution of the file's stamp: a date that is not older than the modification time in
+nanoseconds (so: not older than the file, sub-second part included) yields 304, for EVERY stamp - zero, negative
+(before 1970), fractional on either side of the epoch; the truncation of `int(st_mtime)` never turns a date that is
+not older into an older one -/
+theorem ims_not_older_ns_304 (file : Bytes) (sched : List Nat) (isHead : Bool) (rh : Option Str) (t ns : Int)
+    (maxread : Nat) (h : t * 1000000000 ≥ ns) :
+    staticFileNs file sched isHead rh (some t) ns maxread = .notModified := by
+  unfold staticFileNs
+  apply ims_304
+  unfold mtimeSeconds
+  split <;> omega
+
+/-- and a date older than the file by a whole second or more (older even at the resolution of an HTTP date) never
+yields 304 -/
+theorem ims_older_ns_ignored (file : Bytes) (sched : List Nat) (isHead : Bool) (rh : Option Str) (t ns : Int)
+    (maxread : Nat) (h : (t + 1) * 1000000000 ≤ ns) :
+    staticFileNs file sched isHead rh (some t) ns maxread =
+      staticFileNs file sched isHead rh none ns maxread := by
+  unfold staticFileNs
+  apply ims_older_ignored
+  unfold mtimeSeconds
+  split <;> omega
+
 /-- one second later on the wall clock (same zone offset) is one second later as an instant, and a
 zone offset of `z` seconds names the instant `z` seconds earlier -/
 theorem parseDate_linear (f : DateFields) (k z : Int) (t : Int) (hp : parseDate f = some t) :
@@ -343,6 +366,14 @@ example : parseDate ⟨1994, 11, 6, 8, 49, 37, 0⟩ = some 784111777 := by decid
 example : parseDate ⟨2020, 2, 29, 12, 0, 0, 0⟩ = some 1582977600 := by decide
 example : parseDate ⟨1970, 1, 1, 0, 0, 0, 0⟩ = some 0 := by decide
 example : parseDate ⟨2020, 7, 1, 14, 0, 0, 7200⟩ = parseDate ⟨2020, 7, 1, 12, 0, 0, 0⟩ := by decide
+
+/-- the epoch date against files stamped 0, half a second after, half a second before the epoch, and in 1969 -/
+example : staticFileNs [1] [] false none (parseDate ⟨1970, 1, 1, 0, 0, 0, 0⟩) 0 1 = .notModified := by decide
+example : staticFileNs [1] [] false none (parseDate ⟨1970, 1, 1, 0, 0, 0, 0⟩) 500000000 1 = .notModified := by decide
+example : staticFileNs [1] [] false none (parseDate ⟨1970, 1, 1, 0, 0, 0, 0⟩) (-500000000) 1 = .notModified := by decide
+example : staticFileNs [1] [] false none (parseDate ⟨1970, 1, 1, 0, 0, 0, 0⟩) (-86400000000000) 1 = .notModified := by decide
+example : staticFileNs [1] [] true none (parseDate ⟨1970, 1, 1, 0, 0, 0, 0⟩) 1000000000 1 = .full 1 [] := by decide
+example : mtimeSeconds (-1750000000) = -1 ∧ mtimeSeconds 1750000000 = 1 := by decide
 
 /-- the streaming buffer the theorems are instantiated with is the one in the source -/
 theorem source_maxread_pos : 0 < Ombott.Gen.fileIterMaxread := by decide
